@@ -26,6 +26,7 @@ func TestC06(t *testing.T) {
 	check(t, 0, budget(4000, 60000), func(rt *rapid.T) {
 		c, rs := genRSCase(rt, cfg)
 		maybeFailingConditions(rt, c, rs)
+		maybeBareCondition(rt, c, rs)
 		prep, err := val.Prepare(c)
 		if err != nil {
 			rt.Fatalf("harness: %v", err)
